@@ -227,6 +227,7 @@ fn metadata_shapes(ctx: &mut Ctx, case: u64) {
                 prefix_entries: false,
                 leaf_entries: None,
                 align_gzip_leaves: false,
+                small_metadata: false,
             };
             let f = gen::gen_foreign(&mut rng, &o);
             let mat = json!({"metadata": name, "codec": R::codec_name(codec)});
@@ -258,6 +259,7 @@ fn metadata_shapes(ctx: &mut Ctx, case: u64) {
                 prefix_entries: false,
                 leaf_entries: None,
                 align_gzip_leaves: false,
+                small_metadata: false,
         };
         let f = gen::gen_foreign(&mut rng, &o);
         if PMTiles::from_bytes(f.bytes).is_err() {
@@ -314,6 +316,7 @@ fn unknown_compression(ctx: &mut Ctx, case: u64) {
                 prefix_entries: false,
                 leaf_entries: None,
                 align_gzip_leaves: false,
+                small_metadata: false,
             };
             let mut f = gen::gen_foreign(&mut rng, &o);
             f.bytes[97] = 0;
